@@ -75,7 +75,17 @@ def fmt_locks(s):
 
 def borrow(ctx, rule_fn, old_id: str, new_id: str, suffix: str = ""):
     """Run a rule of another property under a new id (the clause is shared by both properties)."""
-    rule_fn(ctx)
+    try:
+        rule_fn(ctx)
+    except Exception:
+        # the caller records the error under ctx.current_rule: make that the borrowed id, and still rename what was recorded
+        _borrow_rename(ctx, old_id, new_id, suffix)
+        ctx.current_rule = new_id
+        raise
+    _borrow_rename(ctx, old_id, new_id, suffix)
+
+
+def _borrow_rename(ctx, old_id: str, new_id: str, suffix: str = ""):
     if old_id in ctx.rules_applied:
         ctx.rules_applied[new_id] = ctx.rules_applied.pop(old_id) + suffix
         ctx.rule_counts[new_id] = ctx.rule_counts.pop(old_id, 0)
